@@ -679,6 +679,45 @@ func runC05(c *Ctx) {
 			})
 		}
 		c.Floor("O5.7", "instance.Run call sites", n, 2)
+		// the gun is closed BEFORE the instance's result is published: the function that arms `defer Close`
+		// must not itself send the run result (a deferred call runs after the send: the awaiter would count the
+		// instance as finished, and Engine.Run / Wait could return, while the gun is still being closed)
+		nArm := 0
+		for _, g := range PkgFuncs(sp) {
+			if !IsProdFile(P.File(g.Pos())) {
+				continue
+			}
+			var arm *ssa.Defer
+			EachInstr(g, func(in ssa.Instruction) {
+				if d, ok := in.(*ssa.Defer); ok && d.Call.StaticCallee() == instClose {
+					arm = d
+				}
+			})
+			if arm == nil {
+				continue
+			}
+			nArm++
+			var sends []ssa.Instruction
+			EachInstr(g, func(in ssa.Instruction) {
+				switch x := in.(type) {
+				case *ssa.Send:
+					if _, tn := NamedOf(x.X.Type()); tn == "instanceRunResult" {
+						sends = append(sends, in)
+					}
+				case *ssa.Select:
+					for _, st := range x.States {
+						if st.Send != nil {
+							if _, tn := NamedOf(st.Send.Type()); tn == "instanceRunResult" {
+								sends = append(sends, in)
+							}
+						}
+					}
+				}
+			})
+			c.Check(len(sends) == 0, "O5.7", fk(g)+":gun-closed-before-the-result-is-published", arm.Pos(),
+				fmt.Sprintf("the function that defers instance.Close() also sends the instance's run result (%d send(s)): the deferred Close runs after the send", len(sends)))
+		}
+		c.Floor("O5.7", "functions arming defer instance.Close()", nArm, 2)
 		// Close: type-assert to io.Closer comma-ok, Close called on ok edge
 		var ta *ssa.TypeAssert
 		EachInstr(instClose, func(in ssa.Instruction) {
